@@ -10,8 +10,8 @@
 
 const char *verif_property = "C02";
 const char *verif_class_names[] = { "refused_then_retried", "two_in_flight", "deferred_notification", "size_at_limit", "size_beyond_limit", "fc_toggled_midburst",
-	"shm", "socket", "event_readable_checked", "response_from_callback", "response_from_outside", "three_clients", "ring_full_refusal", "sendv", "client_send_blocked_then_rescued", NULL };
-enum { K_RETRY, K_INFLIGHT, K_DEFER, K_ATLIMIT, K_BEYOND, K_FC, K_SHM, K_SOCK, K_READABLE, K_RESPCB, K_RESPOUT, K_THREE, K_FULL, K_SENDV, K_RESCUED };
+	"shm", "socket", "event_readable_checked", "response_from_callback", "response_from_outside", "three_clients", "ring_full_refusal", "sendv", "client_send_blocked_then_rescued", "receive_buffer_too_small", NULL };
+enum { K_RETRY, K_INFLIGHT, K_DEFER, K_ATLIMIT, K_BEYOND, K_FC, K_SHM, K_SOCK, K_READABLE, K_RESPCB, K_RESPOUT, K_THREE, K_FULL, K_SENDV, K_RESCUED, K_SMALLBUF };
 const char *verif_rule =
 	"case = transport, negotiated maximum size, 1-3 clients and an op list: client send/sendv/recv/event_recv (timeout 0), server step (dispatch one ready descriptor chosen by the case), "
 	"server response/event of generated length from inside the message callback or from outside, rate-limit changes (OFF, OFF_2, NORMAL, FAST, SLOW), fc_enable_max changes, shrinking the "
@@ -140,11 +140,22 @@ static int32_t s_msg(qb_ipcs_connection_t *sc, void *data, size_t size)
 	return 0;
 }
 
-static void client_recv(conn &c, bool event)
+static bool is_shm;
+static void client_recv(conn &c, bool event, bool small = false)
 {
 	memset(rbuf, 0x5c, 64);
-	ssize_t rc = event ? qb_ipcc_event_recv(c.cl, rbuf, MAXMSG + 4096, 0) : qb_ipcc_recv(c.cl, rbuf, MAXMSG + 4096, 0);
 	std::deque<mmsg> &q = event ? c.evt : c.resp;
+	if (small && is_shm && !q.empty() && q.front().len > 32) {
+		/* a receive buffer that is too small for the message at the head (shm: the call fails and the message stays where it is) */
+		size_t blen = 16 + vr_u8(&V) % 16;
+		ssize_t rc = event ? qb_ipcc_event_recv(c.cl, rbuf, blen, 0) : qb_ipcc_recv(c.cl, rbuf, blen, 0);
+		vop(R, event ? 23 : 22, c.idx, blen);
+		VLOG(R, "  client %d %s into a %zu-byte buffer -> %zd (head of the model has %u bytes)\n", c.idx, event ? "event_recv" : "recv", blen, rc, q.front().len);
+		VCLASS(R, K_SMALLBUF);
+		if (rc > 0) VFAIL(R, "short-buffer-delivery", "client %d: %s into a %zu-byte buffer returned %zd for a message of %u bytes (truncated delivery)", c.idx, event ? "event_recv" : "recv", blen, rc, q.front().len);
+		return;		/* the model is unchanged: the message must still come out, once, later */
+	}
+	ssize_t rc = event ? qb_ipcc_event_recv(c.cl, rbuf, MAXMSG + 4096, 0) : qb_ipcc_recv(c.cl, rbuf, MAXMSG + 4096, 0);
 	vop(R, event ? 21 : 20, c.idx, 0);
 	VLOG(R, "  client %d %s -> %zd (model holds %zu)\n", c.idx, event ? "event_recv" : "recv", rc, q.size());
 	if (rc > 0) {
@@ -179,6 +190,7 @@ extern "C" int verif_case(const uint8_t *data, size_t size, struct verif_report 
 	R = r; DISP.clear(); JOBS.clear(); nt_retry = nt_inflight = false; rescue_delay_ms = 2.0;
 	for (int i = 0; i < 3; i++) { C[i] = conn(); C[i].idx = -1; }
 	enum qb_ipc_type type = vr_bool(&V) ? QB_IPC_SHM : QB_IPC_SOCKET;
+	is_shm = type == QB_IPC_SHM;
 	size_t want = (size_t[]){ 0, 0, 20000, 65536 }[vr_u8(&V) % 4];
 	NC = 1 + vr_u8(&V) % 3; if (vr_u8(&V) % 2) NC = 1;
 	VCLASS(r, type == QB_IPC_SHM ? K_SHM : K_SOCK); if (NC == 3) VCLASS(r, K_THREE);
@@ -234,8 +246,8 @@ extern "C" int verif_case(const uint8_t *data, size_t size, struct verif_report 
 			}
 		}
 		else if (op <= 15) { vop(r, 2, 0, 0); int did = server_step(vr_u8(&V)); VLOG(r, "server step -> %d\n", did); }
-		else if (op <= 18) client_recv(c, false);
-		else if (op <= 21) client_recv(c, true);
+		else if (op <= 18) client_recv(c, false, op == 18);
+		else if (op <= 21) client_recv(c, true, op == 21);
 		else if (op <= 23 && c.sv) {	/* server sends from outside the callback */
 			if (op == 22 && c.owed_responses > 0) { c.owed_responses--; server_send(c, false, "outside"); VCLASS(r, K_RESPOUT); }
 			else server_send(c, true, "outside");
